@@ -369,7 +369,7 @@ theorem TInv_loopStep (s : St) (i : LoopInp) (h : TInv s) : TInv (loopStep s i) 
   · dsimp only
     split
     · exact ⟨h.q, h.r, h.t, h.m, h.l, h.sorted⟩
-    · have := TInv_dispatchAll i.events { s with polling := false } ⟨h.q, h.r, h.t, h.m, h.l, h.sorted⟩
+    · have := TInv_dispatchAll (if i.pollErr = true then [] else i.events) { s with polling := false } ⟨h.q, h.r, h.t, h.m, h.l, h.sorted⟩
       exact ⟨this.q, this.r, this.t, this.m, this.l, this.sorted⟩
   · exact h
   · exact h
